@@ -141,6 +141,10 @@ impl Judge {
         };
         self.probe_orders.insert(a.probe_order.clone());
         res.counters.insert("history_items".into(), run.history.len() as u64);
+        res.counters.insert(
+            "history_starts_with_front_end_only_entry".into(),
+            run.history.first().map(|h| matches!(h.entry, detsim::Entry::Ast | detsim::Entry::Bare) as u64).unwrap_or(0),
+        );
         res.counters.insert("history_failed_compiles".into(), a.history_failed);
         res.counters.insert("history_compiler_panics".into(), a.history_panicked);
         res.counters.insert("non_main_thread_targets".into(), (run.placement != Placement::Main) as u64);
